@@ -49,6 +49,9 @@ pub enum COp {
     Pause(u32),
     /// Drop both halves of the consumer.
     Drop,
+    /// Drop only the half the consumer sends its commands on; it keeps reading its notifications (a read-only
+    /// consumer from then on).
+    DropWriter,
 }
 
 #[derive(Debug, Clone, Serialize, Deserialize, PartialEq, Eq)]
@@ -168,6 +171,9 @@ pub fn generate(seed: u64, map: bool) -> DlScenario {
                 next_val += 1;
                 ops.push(COp::Set(next_val));
             }
+        }
+        if root.sub(&format!("drop-writer{id}")).chance(1, 6) {
+            ops.push(COp::DropWriter);
         }
         if rng.chance(1, 5) {
             let at = rng.usize_below(ops.len() + 1);
@@ -537,6 +543,11 @@ async fn consumer_writer(
         match op {
             COp::Pause(n) => {
                 yield_n(*n).await;
+                continue;
+            }
+            COp::DropWriter => {
+                writer = None;
+                hist.borrow_mut().marks.push((now_step(), format!("consumer{} dropped its command half", c.id)));
                 continue;
             }
             COp::Drop => {
@@ -1302,7 +1313,7 @@ fn check(rec: &Record) -> Vec<Violation> {
             if sc.map {
                 // One writer per key: the last operation written for a key decides it.
                 let mut expect: BTreeMap<i32, Option<i32>> = BTreeMap::new();
-                let single_clear_writer = sc.consumers.iter().filter(|c| c.ops.iter().any(|o| !matches!(o, COp::Pause(_)))).count() <= 1;
+                let single_clear_writer = sc.consumers.iter().filter(|c| c.ops.iter().any(|o| !matches!(o, COp::Pause(_) | COp::Drop | COp::DropWriter))).count() <= 1;
                 for c in sc.consumers.iter() {
                     for o in c.ops.iter() {
                         match o {
